@@ -10,7 +10,7 @@ Definition is_close (f : frame) : bool := match f with FMethod 0 (MConnClose _ _
 
 Definition benign (e : err) : bool :=
   match e with
-  | EFrameUnexpected | EBogusChannel _ | EClientDropped => true
+  | EFrameUnexpected | EBogusChannel _ => true   (* frames after the close in the same read *)
   | _ => false
   end.
 
